@@ -250,6 +250,12 @@ func (m stateMachine) Depth() int {
 	return len(m.Stack) + 1
 }
 
+// AtMaxDepth reports whether the maximum nesting depth is reached,
+// in which case no further JSON array or object may be pushed.
+func (m stateMachine) AtMaxDepth() bool {
+	return len(m.Stack) == maxNestingDepth
+}
+
 // index returns a reference to the ith entry.
 // It is only valid until the next push method call.
 func (m *stateMachine) index(i int) *stateEntry {
